@@ -2,6 +2,7 @@ import PEval.Lemmas.ClearSwitch
 import PEval.Lemmas.ClearArith
 import PEval.Lemmas.ClearSum
 import PEval.Lemmas.ClearDT
+import PEval.Lemmas.ClearDTHist
 import PEval.Gen.ClearDT
 /-!
 # C05 — CLEAR tracking scores follow their definitions for every history
@@ -627,5 +628,76 @@ example : tableOk (some isIdSwitchedSkTree) isSameMatchSkTree = false := by deci
 example : tableOk (some (stepSkTree 1 1)) (stepSkTree 1 2) = false := by decide +kernel
 
 end DecisionTables
+
+/-! ## the frame loop of `CLEAR.__init__`, histories of any length (bridge of the `init` skeleton) -/
+
+section DecisionTablesHistory
+open PEval.ClearDT
+
+/-- BRIDGE of the frame loop, for histories of ANY length: at the valuation the history induces (`empty i` ⇔ frame `i` has no
+result) the skeleton of `CLEAR.__init__` selects exactly the pairs `(i-1, i)` with a non-empty frame `i ≥ 1`, in order
+(an empty frame is skipped as current frame but still is the previous frame of the next one), and the model folds the
+history exactly that way: `clear cfg hist` is the sum of `_calculate_tp_fp` (`frameStep`) over the selected pairs,
+`objects_results_num` the sum of the sizes of their current frames, and the skeleton's count the number of pairs. -/
+theorem init_loop_bridge (cfg : Cfg) (hist : List (List Res)) :
+    let r := initAtoms (histVal hist) 1 (hist.length - 1) [] 0
+    r.1 = selPairs (histVal hist) 1 (hist.length - 1) ∧ r.2 = r.1.length ∧
+    clear cfg hist = sumPairs cfg hist r.1 ∧ predictNum hist = lenPairsFrom hist 0 r.1 := by
+  intro r
+  refine ⟨?_, ?_, clear_bridge cfg hist, predictNum_bridge hist⟩ <;> simp [r, initAtoms_eq]
+
+/-- the same with every pair's increment read through the step skeleton (`frameStep_bridge`): the model of the whole
+of `CLEAR.__init__` = the `init` skeleton's pairs, each interpreted by the `_calculate_tp_fp` skeleton at its valuation -/
+theorem init_loop_bridge_symbolic (cfg : Cfg) (hist : List (List Res)) :
+    clear cfg hist =
+      (initAtoms (histVal hist) 1 (hist.length - 1) [] 0).1.foldl (fun a p => a.add (pairAccSym cfg hist p)) Acc.zero :=
+  clear_bridge_symbolic cfg hist
+
+/-- composition with the table theorem: a generated `__init__` table that passes the check, read at the valuation of ANY
+history of the tabulated length, names pairs whose `_calculate_tp_fp` sum is the model's `clear`, whose current-frame sizes
+sum to `objects_results_num`, and as many pairs as it counts -/
+theorem init_table_history {gen : Option (DTree (Except String (List (Option Nat × Option Nat) × Nat)))} {n : Nat}
+    (h : InitTableSound gen n) (cfg : Cfg) (hist : List (List Res)) (hl : hist.length = n) :
+    ∀ t, gen = some t → ∃ ps c, t.eval (histVal hist) = .ok (ps, c) ∧
+      clear cfg hist = sumPairs cfg hist ps ∧ predictNum hist = lenPairsFrom hist 0 ps ∧ c = ps.length ∧
+      ∀ p ∈ ps, ∃ k, p = (some k, some (k + 1)) ∧ k + 1 < n ∧ frameAt hist (k + 1) ≠ [] := by
+  intro t ht
+  obtain ⟨h1, h2, h3, h4⟩ := init_loop_bridge cfg hist
+  refine ⟨_, _, h t ht _ (histVal_consistent hist), by rw [← hl]; exact h3, by rw [← hl]; exact h4,
+    by rw [← hl]; exact h2, ?_⟩
+  intro p hp
+  rw [← hl, h1] at hp
+  simp only [selPairs, List.mem_map, List.mem_filter, List.mem_range'_1] at hp
+  obtain ⟨k, ⟨hk, he⟩, rfl⟩ := hp
+  refine ⟨k - 1, (by congr 2; omega), by omega, ?_⟩
+  have hk' : k - 1 + 1 = k := by omega
+  rw [hk']
+  intro h0
+  simp [histVal, h0] at he
+
+/-- the four generated tables of `CLEAR.__init__` (histories of 0 … 3 frames) on every concrete history of that length -/
+theorem init_code_tables_history (cfg : Cfg) (hist : List (List Res)) :
+    (hist.length = 0 → ∀ t, Gen.ClearDT.initTree_0 = some t → ∃ ps c, t.eval (histVal hist) = .ok (ps, c) ∧
+      clear cfg hist = sumPairs cfg hist ps ∧ predictNum hist = lenPairsFrom hist 0 ps ∧ c = ps.length) ∧
+    (hist.length = 1 → ∀ t, Gen.ClearDT.initTree_1 = some t → ∃ ps c, t.eval (histVal hist) = .ok (ps, c) ∧
+      clear cfg hist = sumPairs cfg hist ps ∧ predictNum hist = lenPairsFrom hist 0 ps ∧ c = ps.length) ∧
+    (hist.length = 2 → ∀ t, Gen.ClearDT.initTree_2 = some t → ∃ ps c, t.eval (histVal hist) = .ok (ps, c) ∧
+      clear cfg hist = sumPairs cfg hist ps ∧ predictNum hist = lenPairsFrom hist 0 ps ∧ c = ps.length) ∧
+    (hist.length = 3 → ∀ t, Gen.ClearDT.initTree_3 = some t → ∃ ps c, t.eval (histVal hist) = .ok (ps, c) ∧
+      clear cfg hist = sumPairs cfg hist ps ∧ predictNum hist = lenPairsFrom hist 0 ps ∧ c = ps.length) := by
+  refine ⟨?_, ?_, ?_, ?_⟩ <;> intro hl t ht
+  · obtain ⟨ps, c, a, b, d, e, _⟩ := init_table_history init_0_code_table_eq_model cfg hist hl t ht
+    exact ⟨ps, c, a, b, d, e⟩
+  · obtain ⟨ps, c, a, b, d, e, _⟩ := init_table_history init_1_code_table_eq_model cfg hist hl t ht
+    exact ⟨ps, c, a, b, d, e⟩
+  · obtain ⟨ps, c, a, b, d, e, _⟩ := init_table_history init_2_code_table_eq_model cfg hist hl t ht
+    exact ⟨ps, c, a, b, d, e⟩
+  · obtain ⟨ps, c, a, b, d, e, _⟩ := init_table_history init_3_code_table_eq_model cfg hist hl t ht
+    exact ⟨ps, c, a, b, d, e⟩
+
+/-- non-vacuity: a history with an empty middle frame — the pair (1, 2) IS counted, with the empty frame as previous -/
+example : (initAtoms (histVal [[], [], [⟨1, 0, none, 0, true, 1⟩]]) 1 2 [] 0) = ([(some 1, some 2)], 1) := by decide
+
+end DecisionTablesHistory
 
 end PEval.C05
